@@ -487,7 +487,11 @@ def main(tier, seed):
     if parsed is not None:
         fails += exactness(rep, parsed)
     fails += chirality_frame(rep)
-    fails += run_parallel(rep, [(nm, (lambda r, nm=nm: wrapper_writes(r, nm))) for nm in WRAPPERS])
+    from checks import c06_cores
+    from contracts.bhjm import CORES
+
+    fails += run_parallel(rep, [(nm, (lambda r, nm=nm: wrapper_writes(r, nm))) for nm in WRAPPERS] +
+                          [(f"core.{cn}", (lambda r, cn=cn: c06_cores.no_arg_writes(r, cn))) for cn in CORES])
     try:
         n_nat, bad_nat = native_faults(seed)
     except Exception as e:  # pylint: disable=broad-except
